@@ -166,6 +166,32 @@ func c05(c *Ctx) {
 					}
 				case "false", "unset":
 					through[ap.Block()] = true
+				case "flag":
+					// Synced is a local flag: true may only arrive over a path on which
+					// the apply succeeded, never from the IsInvalid arm
+					phi := lastFlagPhi
+					for i, e := range phi.Edges {
+						if b, _ := cfgx.ConstBool(e); !b {
+							continue
+						}
+						pred := phi.Block().Preds[i]
+						term := pred.Instrs[len(pred.Instrs)-1]
+						isOK := false
+						for _, oe := range okEdges(cr) {
+							if oe.From == pred && oe.To() == phi.Block() {
+								isOK = true
+							}
+						}
+						if !isOK {
+							c.requireCross(site(ap)+" synced-needs-ok-apply", term, okEdges(cr), "ok(apply of the composed resource)")
+						} else {
+							c.R.OK(site(ap)+" synced-needs-ok-apply", c.pos(ap.Pos()), "the flag is true only over the success edge of the apply")
+						}
+						if r, w := cfgx.ReachableFromEdges(invalidTrue, term, cfgx.BackEdges(fc), c.posf()); r && !isOK {
+							c.R.Bad(site(ap)+" synced-on-invalid", c.pos(ap.Pos()), "the Synced flag can still be true on the IsInvalid arm", w...)
+						}
+					}
+					through[ap.Block()] = true
 				default:
 					c.R.Unknown(site(ap)+" synced-literal", c.pos(ap.Pos()), "Synced is not a constant in this ComposedResource literal")
 				}
@@ -502,6 +528,19 @@ func isBoolMap(t types.Type) bool {
 
 // composedLiteralField classifies the value stored into field `name` of the
 // ComposedResource literal v: "true", "false", "unset" (no store), "dynamic".
+// lastFlagPhi is the boolean phi of constants composedLiteralField last
+// classified as "flag" (a local `synced := true; ...; synced = false`).
+var lastFlagPhi *ssa.Phi
+
+func allBoolConst(phi *ssa.Phi) bool {
+	for _, e := range phi.Edges {
+		if _, ok := cfgx.ConstBool(e); !ok {
+			return false
+		}
+	}
+	return len(phi.Edges) > 0
+}
+
 func composedLiteralField(v ssa.Value, name string) string {
 	// v is a load of an alloc (complit) or the alloc's loaded struct
 	var al *ssa.Alloc
@@ -543,6 +582,9 @@ func composedLiteralField(v ssa.Value, name string) string {
 					} else if res == "unset" {
 						res = "false"
 					}
+				} else if phi, isPhi := st.Val.(*ssa.Phi); isPhi && allBoolConst(phi) {
+					lastFlagPhi = phi
+					return "flag"
 				} else {
 					return "dynamic"
 				}
